@@ -385,7 +385,13 @@ func (s *IAMServiceInternal) writeTempFile(b []byte) error {
 
 	_, err = f.Write(b)
 	if err != nil {
+		f.Close()
 		return fmt.Errorf("write temp file: %w", err)
+	}
+
+	err = f.Close()
+	if err != nil {
+		return fmt.Errorf("close temp file: %w", err)
 	}
 
 	err = os.Rename(f.Name(), fname)
